@@ -144,7 +144,9 @@ fn run_history(start_mb: usize, ops: &[Op], l: &mut Local) -> Result<(), (String
                 let (eval, best_move) = pack(*id);
                 let age = tt.generation;
                 let data = SearchTranspositionTableData { bound: bound_of(*bound), eval, depth: *depth, age, best_move };
-                if let Err((m, loc)) = guarded(|| tt.insert(&ZobristHash(*key), data)) {
+                if let Err((m, loc)) = guarded(|| {
+                    let _ = tt.insert(&ZobristHash(*key), data);
+                }) {
                     let class = if model.entries == 0 { "zero-slot-table" } else { "other" };
                     return Err((format!("c19.panic.insert.{class}@{}", short_loc(&loc)), format!("insert into a {size_mb} MB table panicked at op {n}: {m}")));
                 }
@@ -240,7 +242,9 @@ fn run_history(start_mb: usize, ops: &[Op], l: &mut Local) -> Result<(), (String
             }
             Op::NewGen => {
                 l.feat("new_generation");
-                if let Err((m, loc)) = guarded(|| tt.new_generation()) {
+                if let Err((m, loc)) = guarded(|| {
+                    let _ = tt.new_generation();
+                }) {
                     return Err((format!("c19.panic.new_generation@{}", short_loc(&loc)), format!("search number {} on one table panicked: {m}", model.generation as u32 + 1)));
                 }
                 model.generation = model.generation.wrapping_add(1);
@@ -252,12 +256,16 @@ fn run_history(start_mb: usize, ops: &[Op], l: &mut Local) -> Result<(), (String
                 let r = match op {
                     Op::Reset => {
                         l.feat("reset");
-                        guarded(|| tt.reset())
+                        guarded(|| {
+                            let _ = tt.reset();
+                        })
                     }
                     Op::Resize { mb } => {
                         l.feat("resize");
                         let mb = *mb;
-                        let r = guarded(|| tt.resize(mb));
+                        let r = guarded(|| {
+                            let _ = tt.resize(mb);
+                        });
                         size_mb = mb;
                         model.entries = calculate_number_of_entries::<SearchTranspositionTableData>(mb);
                         r
@@ -351,6 +359,34 @@ fn gen_history(rng: &mut Rng, sizes: &[usize], n_ops: usize, next_id: &mut u64) 
     (start, ops)
 }
 
+/// A history that really fills a small table: `permille`/1000 x slots inserts of random keys (so that most slots get
+/// occupied and many are overwritten), the fill indicator read a dozen times on the way, probes of recent keys.
+/// Deterministic in (mb, seed, permille) so that a replay needs only those three numbers.
+fn gen_fill_history(mb: usize, seed: u64, permille: u64) -> Vec<Op> {
+    let mut rng = Rng::new(seed, 8100 + mb as u64);
+    let entries = calculate_number_of_entries::<SearchTranspositionTableData>(mb).max(1) as u64;
+    let count = (entries * permille / 1000).max(10);
+    let every = (count / 12).max(1);
+    let mut ops = Vec::with_capacity(count as usize + 64);
+    let mut id = seed << 20;
+    let mut last = 0u64;
+    for i in 0..count {
+        let key = rng.next();
+        id += 1;
+        ops.push(Op::Insert { key, id: id % (4033u64 << 16), bound: rng.below(3) as u8, depth: rng.below(12) as u8 });
+        last = key;
+        if i % every == every - 1 {
+            ops.push(Op::Occupancy);
+            ops.push(Op::Get { key: last });
+            if rng.chance(1, 3) {
+                ops.push(Op::NewGen);
+            }
+        }
+    }
+    ops.push(Op::Occupancy);
+    ops
+}
+
 pub fn run(args: &Args, seed: u64, tier: &str, report: &Report) -> String {
     let rule = "operation histories insert/probe/new-search/reset/resize/fill-indicator over the real TranspositionTable<SearchTranspositionTableData>, keys colliding on a slot on purpose, every inserted datum uniquely identified; each probe must be explainable by the set of entries the stated policy admits; distinct = distinct histories (by content hash)";
     let thorough = tier == "thorough";
@@ -363,6 +399,21 @@ pub fn run(args: &Args, seed: u64, tier: &str, report: &Report) -> String {
         if let Err((sig, what)) = run_history(mb.parse().unwrap(), &ops, &mut l) {
             report.violation(Violation { monitor: "c19".into(), signature: sig, what, replay_args: vec![], detail: J::Null });
         }
+        report.merge_local(&mut l);
+        return rule.into();
+    }
+    if let Some(f) = args.get("--fill") {
+        let p: Vec<u64> = f.split(':').filter_map(|x| x.parse().ok()).collect();
+        let mut l = Local::default();
+        l.distinct.insert(1);
+        l.distinct.insert(2);
+        if p.len() == 3 {
+            let ops = gen_fill_history(p[0] as usize, p[1], p[2]);
+            if let Err((sig, what)) = run_history(p[0] as usize, &ops, &mut l) {
+                report.violation(Violation { monitor: "c19".into(), signature: sig, what, replay_args: vec![], detail: J::Null });
+            }
+        }
+        l.evaluations = l.evaluations.max(1);
         report.merge_local(&mut l);
         return rule.into();
     }
@@ -405,6 +456,29 @@ pub fn run(args: &Args, seed: u64, tier: &str, report: &Report) -> String {
         body(0);
     } else {
         run_shards(threads, 32, body);
+    }
+    // small tables filled for real (a third of the slots .. three inserts per slot): the fill indicator at high
+    // occupancy, overwrites of occupied slots, the counters after hundreds of thousands of stores
+    if !args.flag("--no-size-sweep") {
+        let fill_sizes: &[usize] = if thorough { &[1, 2, 3, 5, 7, 9, 13, 16] } else { &[1, 2, 3, 5] };
+        let jobs: Vec<(usize, u64)> = fill_sizes.iter().flat_map(|mb| [300u64, 900, 3000].iter().map(move |pm| (*mb, *pm))).collect();
+        let jobs_ref = &jobs;
+        run_shards(jobs.len().min(16), 32, |shard: usize| {
+            let mut l = Local::default();
+            let mut j = shard;
+            while j < jobs_ref.len() {
+                let (mb, pm) = jobs_ref[j];
+                let ops = gen_fill_history(mb, seed + j as u64, pm);
+                l.feat("fill_histories");
+                l.feat_n("fill_history_inserts", ops.len() as u64);
+                l.distinct.insert(hash_str(&format!("fill{mb}:{}:{pm}", seed + j as u64)));
+                if let Err((sig, what)) = run_history(mb, &ops, &mut l) {
+                    report.violation(Violation { monitor: "c19".into(), signature: sig, what: format!("{what} [{mb} MB table filled with {} stores]", ops.len()), replay_args: vec!["c19".into(), "--fill".into(), format!("{mb}:{}:{pm}", seed + j as u64)], detail: J::Null });
+                }
+                j += jobs_ref.len().min(16);
+            }
+            report.merge_local(&mut l);
+        });
     }
     // every advertised size: create, insert, probe, fill indicator (sizes above 256 MB only in the thorough tier)
     let all_sizes: Vec<usize> = if args.flag("--no-size-sweep") { vec![] } else if thorough { vec![0, 1, 2, 3, 5, 7, 8, 15, 16, 31, 32, 63, 64, 100, 127, 128, 255, 256, 257, 511, 512, 1000, 1023, 1024] } else { vec![0, 1, 2, 3, 5, 8, 16, 31, 64, 128, 256] };
